@@ -1,6 +1,7 @@
 """C11 — control-flow obfuscation preserves function behaviour."""
 import os, random, re
 from . import core, e2e, c01model
+from .c01model import hx
 
 PID = "C11"
 GENS = ["Consts"]
@@ -439,6 +440,116 @@ def oracle_part(chk, tier, E, orc, diffs, fails):
     chk.add_sample({"op": mops[0], "expected": expect[0]})
 
 
+FLAT_SRCS = [("loopIf", '''package main
+
+func loopIf(n int) int {
+	s := 0
+	for i := 0; i < n; i++ {
+		if i%2 == 0 {
+			s += i
+		} else {
+			s -= 1
+		}
+	}
+	return s
+}
+'''), ("nested", '''package main
+
+func nested(n int) int {
+	c := 0
+	for i := 0; i < n; i++ {
+		for j := i; j < n; j++ {
+			if (i+j)%3 == 0 {
+				continue
+			}
+			if c > 100 {
+				return c
+			}
+			c += i * j
+		}
+	}
+	return c
+}
+'''), ("sw", '''package main
+
+func sw(x int) int {
+	switch {
+	case x < 0:
+		x = -x
+		fallthrough
+	case x == 0:
+		x++
+	case x < 10:
+		x *= 2
+	default:
+		x -= 10
+	}
+	for x > 3 && x%7 != 0 {
+		x--
+	}
+	return x
+}
+'''), ("shortCircuit", '''package main
+
+func shortCircuit(a, b int, p *int) bool {
+	x := a > 0 && (b > 0 || a > 5)
+	y := p != nil && *p > 3
+	return x != y || p == nil
+}
+'''), ("straight", '''package main
+
+func straight(a, b int) int {
+	c := a + b
+	d := c * 2
+	return d - a
+}
+''')]
+
+
+def flatten_structure(chk, tier, E, orc, fails):
+    """the graph the real applyFlattening produces is an instance of the model's `flatten`: keys are a permutation of 1..n, the
+    i-th successor slot goes to jump block i, the i-th chain block compares with key i and continues at the target of edge i,
+    the chain ends at the real entry block"""
+    S = c01model.OracleSession(orc, E.env())
+    rnd = random.Random(chk.seed * 73 + 1)
+    st = chk.cov["streams"].setdefault("oracle:flatten-structure", {"graphs": 0, "edges": 0, "not_flattened": 0})
+    try:
+        for name, src in FLAT_SRCS:
+            for _ in range(3 if tier == "quick" else 40):
+                seed = rnd.randrange(1, 1 << 40)
+                a = S.ask("cfflat %d %s %s" % (seed, hx(src), hx(name)))
+                chk.count_cases(["flat|%s|%d" % (name, seed)])
+                if a.startswith("err") or a.startswith("!"):
+                    fails.append({"why": "applyFlattening hook failed", "detail": {"function": name, "answer": a[:300]}, "key": "flatten-hook"}); break
+                if a.endswith("notflattened"):
+                    st["not_flattened"] += 1; continue
+                f = dict(x.split("=", 1) for x in a.split(" "))
+                edges = [tuple(e.split(">")) for e in f["edges"].split(",")]
+                keys = [int(k) for k in f["keys"].split(",")]
+                n = len(edges)
+                st["graphs"] += 1; st["edges"] += n
+                problems = []
+                if sorted(keys) != list(range(1, n + 1)):
+                    problems.append("keys %s are not a permutation of 1..%d" % (keys, n))
+                if f["entry"] != "ok":
+                    problems.append("entry block " + f["entry"])
+                for i in range(n):
+                    c = f.get("chain%d" % i, "missing")
+                    want = "%d:%s:%s" % (keys[i], edges[i][1], "c%d" % (i + 1) if i + 1 < n else "real")
+                    if c != want:
+                        problems.append("chain block %d is %s, the model has %s" % (i, c, want))
+                succ = f["succ"].split(",")
+                want_succ = ["%s:%d" % (edges[i][0], i) for i in range(n)]
+                if succ != want_succ:
+                    problems.append("successor slots %s, the model has %s" % (succ[:6], want_succ[:6]))
+                if problems:
+                    fails.append({"why": "the flattened graph is not the dispatcher structure the theorems are about", "detail": {"function": name, "seed": seed, "problems": problems[:4], "dump": a[:600]},
+                                  "key": "flatten-structure"})
+                    break
+    finally:
+        S.close()
+
+
 def e2e_part(chk, tier, E, fails):
     rnd = random.Random(chk.seed * 67 + 5)
     rounds = 2 if tier == "quick" else 12
@@ -492,6 +603,7 @@ def main(tier, replay=None):
     diffs, fails = [], []
     try:
         oracle_part(chk, tier, E, orc, diffs, fails)
+        flatten_structure(chk, tier, E, orc, fails)
         e2e_part(chk, tier, E, fails)
     finally:
         E.cleanup()
@@ -503,7 +615,7 @@ def main(tier, replay=None):
         if f["key"] not in seen:
             seen.add(f["key"])
             chk.violation(f["why"] + ": " + str(f["detail"])[:500], {"kind": "ctrlflow", **f}, True, key=f["key"])
-    chk.cov["rule"] = ("oracle: the real randomAlwaysFalseCond, generateKeys (recorded draws replayed by the model), xorHardening.Apply and delegateTableHardening.Apply (literals read back from the emitted AST, "
+    chk.cov["rule"] = ("oracle: the real applyFlattening on import-free functions (the produced graph must be the dispatcher structure of the model); the real randomAlwaysFalseCond, generateKeys (recorded draws replayed by the model), xorHardening.Apply and delegateTableHardening.Apply (literals read back from the emitted AST, "
                        "store expression evaluated by the model) on random seeds; e2e: a catalogue of %d functions (loops, labels, switch/fallthrough, range over slice/array/int/map/chan/string, select, defer, recover, "
                        "closures, named results, tuple swaps, short circuit, goto, type switch, arithmetic, goroutines, panics) each carrying a random directive from the parameter grid "
                        "(block_splits, junk_jumps, flatten_passes, flatten_hardening, trash_blocks), built with GARBLE_EXPERIMENTAL_CONTROLFLOW=1 and compared call by call with the regular build" % len(FUNCS))
